@@ -334,6 +334,9 @@ GEN_THEOREMS = {
     "C07": ("CoreDhcp.Props.GenAlloc4", ["GEN_a4_allocate_eq", "GEN_a4_toOffset_eq"]),
 }
 GEN_THEOREMS_MORE = [
+    # plugins/prefix: Handle with its three loops and setupPrefix regenerated (unit prefix6)
+    ("C08", "CoreDhcp.Props.GenPrefix6", ['GEN_pd_loop1_eq', 'GEN_pd_loop2_eq', 'GEN_pd_loop3_model', 'GEN_pd_loop3_eq', 'GEN_pd_handleIAPD_model', 'GEN_pd_handleIAPD_gen', 'GEN_pd_handleIAPD_eq', 'GEN_pd_handleMsg_model', 'GEN_pd_handleMsg_gen', 'GEN_pd_handleMsg_eq', 'GEN_pd_handle_undecapsulated', 'GEN_pd_handle_total', 'GEN_pd_setup_eq', 'GEN_pd_setup_arity']),
+    ("C09", "CoreDhcp.Props.GenPrefix6", ['GEN_pd_loop1_eq', 'GEN_pd_loop2_eq', 'GEN_pd_loop3_model', 'GEN_pd_loop3_eq', 'GEN_pd_handleIAPD_model', 'GEN_pd_handleIAPD_gen', 'GEN_pd_handleIAPD_eq', 'GEN_pd_handleMsg_model', 'GEN_pd_handleMsg_gen', 'GEN_pd_handleMsg_eq', 'GEN_pd_handle_undecapsulated', 'GEN_pd_handle_total', 'GEN_pd_setup_eq', 'GEN_pd_setup_arity']),
     # config/config.go from splitHostPort to Load regenerated (unit config)
     ("C18", "CoreDhcp.Props.GenConfig", ['GEN_cfg_splitHostPort_eq', 'GEN_cfg_getListenAddress_eq', 'GEN_cfg_getListenAddress_no_panic', 'GEN_cfg_expand_eq', 'GEN_cfg_expand_no_panic', 'GEN_cfg_defaultListen_eq', 'GEN_cfg_defaultListen_no_panic', 'GEN_cfg_listenLoop_acc', 'GEN_cfg_listenLoop_eq', 'GEN_cfg_listenLoop_no_panic', 'GEN_cfg_parseListen_eq', 'GEN_cfg_parseListen_no_panic', 'GEN_cfg_pluginsLoop_acc', 'GEN_cfg_pluginsLoop_no_panic', 'GEN_cfg_parsePlugins_eq', 'GEN_cfg_parsePlugins_no_panic', 'GEN_cfg_getPlugins_eq', 'GEN_cfg_getPlugins_no_panic', 'GEN_cfg_parseSection_eq', 'GEN_cfg_parseSection_absent', 'GEN_cfg_parseConfig_no_panic', 'GEN_cfg_load_eq', 'GEN_cfg_load_no_panic', 'GEN_cfg_bad_version', 'GEN_cfg_load_v6_first', 'GEN_cfg_parseConfig_plugins_first']),
     # plugins/file: both loaders, handle4/handle6, loadFromFile regenerated (unit fileplugin)
